@@ -15,6 +15,14 @@
 //   SNEARD d c <pathd>       -> <pathd>                    (StripNearEqual<double>; points as hex floats)
 //   SNEARS d c <paths>       -> <paths>                    (Paths64 overload)     SNEARSD d c <pathsd> -> <pathsd>
 //   SDUPS c <paths>          -> <paths>                    (StripDuplicates, Paths64 overload)
+//   SIMPD eps c <pathd> -> <pathd>      SIMPS eps c <paths> -> <paths>     SIMPSD eps c <pathsd> -> <pathsd>
+//   RDPD eps <pathd>    -> <pathd> <n> f0 f1 ... (direct RDP<double>)     RDPS eps <paths> -> <paths>    RDPSD eps <pathsd> -> <pathsd>
+//   TRANSD dx dy <pathd> -> <pathd>     TRANSS dx dy <paths> -> <paths>    TRANSSD dx dy <pathsd> -> <pathsd>
+//   SDUPD c <pathd> -> <pathd>          SDUPSD c <pathsd> -> <pathsd>
+//   TRIMD precision o <pathd> -> scale <pathd>              (TrimCollinear(PathD, precision, o); scale = std::pow(10, precision))
+//   ELLR l t r b steps -> steps si co <path>  (Ellipse(Rect64, steps))    ELLRD l t r b steps -> steps si co <pathd>  (Ellipse(RectD, steps))
+//   TFID <path> -> <pathd> (TransformPath<double,int64_t>)  TFDI <pathd> -> <path> (TransformPath<int64_t,double>)
+//   TFIDS <paths> -> <pathsd> (TransformPaths<double,int64_t>)
 //   BOUNDS <path>            -> left top right bottom
 //   TRANS dx dy <path>       -> <path>
 //   LEN c <path>             -> double
@@ -72,6 +80,47 @@ static void handle(Toks& t, std::ostream& os) {
   else if (cmd == "SNEARS") { double d = t.dbl(); bool c = t.b(); Paths64 ps = t.paths(); put(os, StripNearEqual<int64_t>(ps, d, c)); }
   else if (cmd == "SNEARSD") { double d = t.dbl(); bool c = t.b(); PathsD ps = t.pathsd(); put(os, StripNearEqual<double>(ps, d, c)); }
   else if (cmd == "SDUPS") { bool c = t.b(); Paths64 ps = t.paths(); StripDuplicates<int64_t>(ps, c); put(os, ps); }
+  else if (cmd == "SIMPD") { double eps = t.dbl(); bool c = t.b(); PathD p = t.pathd(); put(os, SimplifyPath<double>(p, eps, c)); }
+  else if (cmd == "SIMPS") { double eps = t.dbl(); bool c = t.b(); Paths64 ps = t.paths(); put(os, SimplifyPaths<int64_t>(ps, eps, c)); }
+  else if (cmd == "SIMPSD") { double eps = t.dbl(); bool c = t.b(); PathsD ps = t.pathsd(); put(os, SimplifyPaths<double>(ps, eps, c)); }
+  else if (cmd == "RDPD") {
+    double eps = t.dbl(); PathD p = t.pathd();
+    put(os, RamerDouglasPeucker<double>(p, eps));
+    const size_t len = p.size();
+    std::vector<bool> flags(len);
+    if (len < 5) { for (size_t i = 0; i < len; ++i) flags[i] = true; }
+    else { flags[0] = true; flags[len - 1] = true; RDP<double>(p, 0, len - 1, Sqr(eps), flags); }
+    os << ' ' << len;
+    for (size_t i = 0; i < len; ++i) os << ' ' << (flags[i] ? 1 : 0);
+  }
+  else if (cmd == "RDPS") { double eps = t.dbl(); Paths64 ps = t.paths(); put(os, RamerDouglasPeucker<int64_t>(ps, eps)); }
+  else if (cmd == "RDPSD") { double eps = t.dbl(); PathsD ps = t.pathsd(); put(os, RamerDouglasPeucker<double>(ps, eps)); }
+  else if (cmd == "TRANSD") { double dx = t.dbl(); double dy = t.dbl(); PathD p = t.pathd(); put(os, TranslatePath(p, dx, dy)); }
+  else if (cmd == "TRANSS") { int64_t dx = t.i64(); int64_t dy = t.i64(); Paths64 ps = t.paths(); put(os, TranslatePaths(ps, dx, dy)); }
+  else if (cmd == "TRANSSD") { double dx = t.dbl(); double dy = t.dbl(); PathsD ps = t.pathsd(); put(os, TranslatePaths(ps, dx, dy)); }
+  else if (cmd == "SDUPD") { bool c = t.b(); PathD p = t.pathd(); StripDuplicates<double>(p, c); put(os, p); }
+  else if (cmd == "SDUPSD") { bool c = t.b(); PathsD ps = t.pathsd(); StripDuplicates<double>(ps, c); put(os, ps); }
+  else if (cmd == "TRIMD") {
+    int prec = t.i32(); bool o = t.b(); PathD p = t.pathd();
+    os << hexd(std::pow(10, prec)) << ' '; put(os, TrimCollinear(p, prec, o));
+  }
+  else if (cmd == "ELLR") {
+    int64_t l = t.i64(), tp = t.i64(), r = t.i64(), b = t.i64(); size_t steps = (size_t)t.u64();
+    Rect64 rc(l, tp, r, b);
+    Path64 res = Ellipse<int64_t>(rc, steps);
+    size_t so; double si, co; ell_params(static_cast<double>(rc.Width()) * 0.5, static_cast<double>(rc.Height()) * 0.5, steps, so, si, co);
+    os << so << ' ' << hexd(si) << ' ' << hexd(co) << ' '; put(os, res);
+  }
+  else if (cmd == "ELLRD") {
+    double l = t.dbl(), tp = t.dbl(), r = t.dbl(), b = t.dbl(); size_t steps = (size_t)t.u64();
+    RectD rc(l, tp, r, b);
+    PathD res = Ellipse<double>(rc, steps);
+    size_t so; double si, co; ell_params(static_cast<double>(rc.Width()) * 0.5, static_cast<double>(rc.Height()) * 0.5, steps, so, si, co);
+    os << so << ' ' << hexd(si) << ' ' << hexd(co) << ' '; put(os, res);
+  }
+  else if (cmd == "TFID") { Path64 p = t.path(); put(os, TransformPath<double, int64_t>(p)); }
+  else if (cmd == "TFDI") { PathD p = t.pathd(); put(os, TransformPath<int64_t, double>(p)); }
+  else if (cmd == "TFIDS") { Paths64 ps = t.paths(); put(os, TransformPaths<double, int64_t>(ps)); }
   else if (cmd == "BOUNDS") { Path64 p = t.path(); Rect64 r = GetBounds(p); os << r.left << ' ' << r.top << ' ' << r.right << ' ' << r.bottom; }
   else if (cmd == "TRANS") { int64_t dx = t.i64(); int64_t dy = t.i64(); Path64 p = t.path(); put(os, TranslatePath(p, dx, dy)); }
   else if (cmd == "LEN") { bool c = t.b(); Path64 p = t.path(); os << hexd(Length<int64_t>(p, c)); }
